@@ -17,7 +17,8 @@ Bad(e) ==
          LET stateOk == e.state \in {"issued", "reused"}
              good == stateOk /\ LoginVerifies(e.login) IN
          (IF e.authedAfter /\ ~good THEN {"G_C13_OnlyVerifiedLogin"} ELSE {})
-         \cup (IF good /\ ~e.authedAfter THEN {"G_C13_VerifiedLoginWorks"} ELSE {})
+         \* the liveness side is demanded only for a state used for the first time: a gateway may well make a state single-use
+         \cup (IF good /\ e.state = "issued" /\ ~e.authedAfter THEN {"G_C13_VerifiedLoginWorks"} ELSE {})
          \cup (IF e.authedAfter /\ ~e.userIsClaim THEN {"G_C13_UserIsTheClaim"} ELSE {})
          \cup (IF ~stateOk /\ e.status \notin {400, 500, 403} THEN {"G_C13_UnknownStateRefused"} ELSE {})
     [] e.ev = "cookie" ->
